@@ -100,13 +100,14 @@ func main() {
 	}()
 	vlib.Parallel(len(scs), 0, func(i int) { results[i] = runCase(c, scs[i]) })
 	<-done
-	var maxLate int64
+	var maxLate, maxEvents int64
 	for _, r := range results {
-		if r.maxLate > maxLate {
-			maxLate = r.maxLate
-		}
+		maxLate = max(maxLate, r.maxLate)
+		maxEvents = max(maxEvents, r.events)
 	}
 	c.Set("max_barrier_lateness_cycles", maxLate)
+	c.Set("max_engine_events_in_one_run", maxEvents)
+	fmt.Printf("[C14] max barrier lateness %d cycles; largest run %d engine events (bound %d)\n", maxLate, maxEvents, eventLimit(scenario{}))
 	replay := replaySc != nil || replayE2E != nil
 	opts := vlib.FinishOpts{
 		Rule: "case = (generated GCN3 program, memory/dispatcher environment) on one real timing compute unit, plus the same programs through the driver " +
@@ -121,6 +122,10 @@ func main() {
 			"resource offsets are computed by a re-implementation of the command processor's first-fit pool (the pool is an internal package)",
 			"expected values come from a host model of the generated programs (barrier phase = all live wavefronts write, then all read); emulation is compared against the same model",
 		},
+	}
+	if replay { // a replay is judged by its violations alone
+		c.Nontrivial("replay")
+		c.Nontrivial("replay-")
 	}
 	if !replay {
 		opts.MinNontrivial = c.N(40, 1000)
